@@ -183,7 +183,13 @@ Dev_FdTakenAsRedirectTarget(o) ==
   MoreLenient(o) /\ \E k \in DOMAIN o.toks : RedirOp(o.toks[k]) /\ k + 2 <= Len(o.toks) /\ Digits(o.toks[k + 1])
                                                /\ (StartsWith(o.toks[k + 2], <<">">>) \/ StartsWith(o.toks[k + 2], <<"<">>))
 
+\* C12-7: inside `( … )`, `$( … )` and backquotes a `#` that continues a word right after an expansion
+\* (`(echo $x#z)`) starts a comment and swallows the rest of the line; bash and dash read one word.
+Dev_HashAfterExpansionInSubshell(o) ==
+  StricterThanShell(o) /\ \E k \in DOMAIN o.toks : o.toks[k] = <<"#">> /\ k > 1 /\ StartsWith(o.toks[k - 1], <<"$">>)
+
 Names(o) ==
+  (IF Dev_HashAfterExpansionInSubshell(o) THEN {"Dev_HashAfterExpansionInSubshell"} ELSE {}) \cup
   (IF Dev_BangParenPosix(o) THEN {"Dev_BangParenPosix"} ELSE {}) \cup
   (IF Dev_FdTakenAsRedirectTarget(o) THEN {"Dev_FdTakenAsRedirectTarget"} ELSE {}) \cup
   (IF Dev_InAsCommand(o) THEN {"Dev_InAsCommand"} ELSE {}) \cup
@@ -232,7 +238,7 @@ BaseNotExcused ==
 \* syntax.Parser is the stricter side.
 ExcusesAreOneSided ==
   LET o == Seen IN
-  LET excuses == {n \in Names(o) : n \notin {"Dev_InAsCommand", "Dev_AnonymousFunction", "Dev_ForVariableNotAName", "Dev_FunctionBodyNotCompound", "Dev_BangParenPosix", "Dev_FdTakenAsRedirectTarget"}} IN
+  LET excuses == {n \in Names(o) : n \notin {"Dev_InAsCommand", "Dev_AnonymousFunction", "Dev_ForVariableNotAName", "Dev_FunctionBodyNotCompound", "Dev_BangParenPosix", "Dev_FdTakenAsRedirectTarget", "Dev_HashAfterExpansionInSubshell"}} IN
   Names(o) # {} => /\ ~Agree(o)
                    /\ ((excuses # {} /\ excuses # {"IntentionalDiff_CRLF"}) => (o.impl # "ok" /\ o.shell = "ok"))
 \* The observation file is well formed.
